@@ -120,6 +120,17 @@ CHECKS = {
             "Trusted: franz-go's in-memory mark bookkeeping on a client that never connects; the broker-dependent part of Plugin.Start/Stop is "
             "not run; actions/output are harness-owned; TLC integers are 32-bit so offsets above 2^31 are checked outside TLC with the spec's formulas.",
             "DESIGN.md §6 C10"),
+    "C03": ("TLC model checking of FileInput.tla (every kill instant, sync/async persistence, all stream assignments; the code's resume rule as "
+            "named deviation D3, residual and repaired-rule configs, mechanism switches) + TLC-generated kill/restart histories performed on the "
+            "REAL file input in a child process that is really SIGKILLed and restarted, rotation by rename and truncation families; two-run "
+            "histories judged by TLC (FileInputMon.tla)",
+            "AtLeastOnce is checked exhaustively on the design for every kill point at the model's granularity; the resume rule's hole (D3) is "
+            "reproduced at design level and on the real input, the residual and a repaired rule are proven in small scope, and every mechanism "
+            "(seek-min, commit-after-ack, skip by own stream, strict skip) has a distinguishing history that the real code must survive without "
+            "losing a line.",
+            "Trusted: harness-owned gate action and durable output around the real file input + pipeline; kill instants at gate/commit "
+            "granularity (the save protocol itself is C07); one file plus rotated predecessors; a line counts as lost after 6 s without progress; "
+            "symlinks, lz4, remove_after, offsets_op tail/reset not covered.", "DESIGN.md §6 C03"),
     "C04": ("TLC model checking incl. liveness under fairness of detailed pool protocol specs (EventPoolLowMem/EventPoolStd: atomics, lock, "
             "cond-var, heartbeat) and of Pipeline.tla; TLC trap schedule of the lost-wake-up window replayed on the real pools through "
             "verif hook gates; end-to-end progress runs of the real pipeline validated by TLC",
